@@ -162,7 +162,7 @@ func (fv *FuncVC) callWithContractEnv(x *ssa.Call, cc *FuncContract, extra map[s
 		if r.Free {
 			continue
 		}
-		goal := envPre.trBool(r.E)
+		goal := envPre.withPol(1).trBool(r.E)
 		fv.oblige("pre@call", fmt.Sprintf("pre@call:%s:%d", calleeName, k), clauseProps(r, fv.props()), goal, x.Pos(), fmt.Sprintf("precondition of %s: %s", calleeName, exprString(r.E)))
 	}
 	if cc.Pure && len(cc.Ensures) == 0 {
